@@ -19,13 +19,15 @@ type QCfg struct {
 	Derived   bool // derived fields over table fields
 	Shift     bool
 	SubQuery  bool // FROM (subquery) and dim IN (subquery)
+	GroupExpr bool // GROUP BY <function of dims> AS name
+	Combo     bool // bias towards GROUP BY + HAVING + ORDER BY + LIMIT together
 	ConstOK   bool // constants in derived fields / HAVING (gap rows: listed finding)
 	DataSpanP int  // number of coarsest periods the data spans (for window bounds)
 }
 
 // FullQ is the whole grammar (differential / metamorphic checks).
 func FullQ(span int) *QCfg {
-	return &QCfg{Window: true, Where: true, Group: true, Stride: true, Crosstab: true, Having: true, Order: true, Limit: true, Derived: true, Shift: true, SubQuery: true, ConstOK: true, DataSpanP: span}
+	return &QCfg{Window: true, Where: true, Group: true, Stride: true, Crosstab: true, Having: true, Order: true, Limit: true, Derived: true, Shift: true, SubQuery: true, ConstOK: true, GroupExpr: true, Combo: true, DataSpanP: span}
 }
 
 func refEx(name string) *Ex { return &Ex{Op: "REF", F: name} }
@@ -225,6 +227,36 @@ func GenQuery(t *rapid.T, qc *QCfg, s *Schema, table string, label string) *Quer
 				q.GroupBy = append([]string(nil), perm[:n]...)
 			}
 		}
+		if qc.GroupExpr && rapid.IntRange(0, 5).Draw(t, label+".gex") == 0 {
+			var sdims []string
+			for _, d := range dims {
+				if d == "da" || d == "dc" {
+					sdims = append(sdims, d)
+				}
+			}
+			if len(sdims) > 0 {
+				d := rapid.SampledFrom(sdims).Draw(t, label+".gexd")
+				switch rapid.IntRange(0, 2).Draw(t, label+".gexk") {
+				case 0:
+					q.GroupEx = append(q.GroupEx, GroupEx{Name: "g0", SQL: "SUBSTR(" + d + ", 0, 1)"})
+				case 1:
+					q.GroupEx = append(q.GroupEx, GroupEx{Name: "g1", SQL: "CONCAT('-', " + d + ", " + dims[0] + ")"})
+				default:
+					q.GroupEx = append(q.GroupEx, GroupEx{Name: "g2", SQL: "LEN(" + d + ")"})
+				}
+				q.GroupStar, q.GroupNone = false, false
+				// the plain dim may or may not stay in the list
+				if rapid.Bool().Draw(t, label+".gexdrop") {
+					var keep []string
+					for _, g := range q.GroupBy {
+						if g != d {
+							keep = append(keep, g)
+						}
+					}
+					q.GroupBy = keep
+				}
+			}
+		}
 		if rapid.IntRange(0, 2).Draw(t, label+".per") == 0 {
 			q.PeriodNS = res * int64(rapid.SampledFrom([]int{1, 2, 3, 5, 60}).Draw(t, label+".pm"))
 		}
@@ -264,6 +296,24 @@ func GenQuery(t *rapid.T, qc *QCfg, s *Schema, table string, label string) *Quer
 		q.Limit = rapid.IntRange(1, 8).Draw(t, label+".limit")
 		if rapid.Bool().Draw(t, label+".hasoff") {
 			q.Offset = rapid.IntRange(1, 5).Draw(t, label+".offset")
+		}
+	}
+	if qc.Combo && qc.Having && qc.Order && qc.Limit && (len(q.GroupBy) > 0 || len(q.GroupEx) > 0) && rapid.IntRange(0, 4).Draw(t, label+".combo") == 0 {
+		if q.Having == nil {
+			q.Having = GenHaving(t, qc, opNames, 0, label+".ch")
+		}
+		if len(q.OrderBy) == 0 {
+			cands := []string{"_time"}
+			for _, f := range q.Fields {
+				if !f.Star && f.Name != "" {
+					cands = append(cands, f.Name)
+				}
+			}
+			cands = append(cands, q.GroupBy...)
+			q.OrderBy = []OrderKey{{Field: rapid.SampledFrom(cands).Draw(t, label+".cok"), Desc: rapid.Bool().Draw(t, label+".cod")}}
+		}
+		if q.Limit == 0 {
+			q.Limit = rapid.IntRange(1, 4).Draw(t, label+".climit")
 		}
 	}
 	if qc.SubQuery && rapid.IntRange(0, 7).Draw(t, label+".sub") == 0 && len(dims) > 0 {
